@@ -10,7 +10,7 @@ CONSTANTS
   StepPool = {}
   ExtrasPool = {}
   MaxAssets <- MaxAssetsDef
-  MaxAssocs = 0
+  MaxAssocs <- MaxAssocsDef
   MaxAtk = 0
   MaxH = 12
   MaxMembers <- MaxMembersDef
